@@ -21,7 +21,7 @@ METHODS = ["trim", "substring", "concat", "replace", "slice", "trimStart", "toUp
 THIS_ARGS = ["a", "'lit'", "f()", "o.p", "...r", "undefined", "[a]", "this", "a + b"]
 
 SPECIAL_LITS = [r"'\\'", r"'\\users\\'", "'`'", "'${x}'", r"'\n'", r"'\u0041'", r"'\x41'", r"'it\'s'", r'"q\"q"', r"'\\1'", r"'\\u'", r"'a\\'",
-                r"'\0'", "'\u2028'", "'</script>'", r"'\r\n'", "'\t'", "''", "'\ud83d\ude00'", r"'\ud83d'", "'/*'", "'//'", "'é'"]
+                r"'\0'", "'\u2028'", "'</script>'", r"'\r\n'", "'\t'", "''", "'\U0001F600'", r"'\ud83d'", "'/*'", "'//'", "'é'"]
 
 CONTEXTS = [
     "function f(a,b,o,k,r,q,x,y,z,i,arr){ return %s; }",
